@@ -416,6 +416,26 @@ def replay_case(arg):
                      else 'integer_vector_gradient', dict(float=[vf, float(sf)], int=[vi, float(si)], x=xi.tolist()))
         except Exception as e:
             fail('Evaluable', type(e).__name__, dict(op='integer vector', error=repr(e)))
+    # ---- a boundary that is INSIDE the domain: the scale of a non-centred Gaussian dimension exactly zero (psi = mu for every
+    # individual, the etas still scored as standard normal) -- a finite, documented value
+    if not fails and n > 0:
+        zslots = [k_ for k_, sl in enumerate(rec['layout']) if sl[0] == 'theta' and sl[2] == 2 and
+                  rec['subs'][sl[1] - 1]['kind'] == 'G' and not rec['subs'][sl[1] - 1]['cen'] and rec['subs'][sl[1] - 1]['cov'] == 0]
+        if zslots:
+            xz = x.copy()
+            xz[zslots] = 0.0
+            try:
+                with warnings.catch_warnings():
+                    warnings.simplefilter('ignore')
+                    vz = float(hll(xz.copy()))
+                    sz = float(hll.evaluateS1(xz.copy())[0])
+                ez = interp.value(ref, xz)
+                cnt['evaluations'] = cnt.get('evaluations', 0) + 2
+                cnt['zero_scale_of_a_noncentred_dimension'] = 1
+                if np.isfinite(ez) and not (interp.close(vz, ez) and interp.close(sz, ez)):
+                    fail('Denotation', 'value_at_zero_scale_of_a_noncentred_dimension', dict(got=[vz, sz], expected=ez, x=xz.tolist()))
+            except Exception as e:
+                fail('Evaluable', type(e).__name__, dict(op='zero scale', error=repr(e)))
     # ---- outside the support: plain evaluation and evaluation with sensitivities agree on finiteness -----------
     # (C03, last sentence).  One slot at a time is set to zero or to a negative number -- a scale of the error model or
     # of a population sub-model, an individual parameter of a log-normal / truncated Gaussian dimension, or a harmless
